@@ -603,6 +603,15 @@ pub fn structural(prop: &'static str, cfg: &Config) -> PropRun {
     if matches!(prop, "C01" | "C02" | "C09" | "C10") && cfg.only_spaces.is_empty() {
         early.push(run_program_truncations(prop, cfg, &ex));
     }
+    if cfg.only_spaces.is_empty() {
+        let xp = spaces::exotic_pair_inputs();
+        early.push(ex.run_list(
+            "every atom x every exotic character class representative x continuations",
+            xp.len() as u64,
+            |i, buf| buf.push_str(&xp[i as usize]),
+            |local, input, _| visit_text(prop, local, input),
+        ));
+    }
     let mut report = ex.run(&sp, structural_visit(prop), cfg_of);
     for e in early {
         report.absorb(e);
